@@ -14,6 +14,10 @@ class XE(Exception):
     pass
 
 
+class BXE(BaseException):
+    pass
+
+
 class FXE(XE):
     """an exception object that is falsy (as error aggregates with __len__ == 0 are): the library must test
     `is not None`, never truthiness"""
@@ -65,6 +69,10 @@ def execute(p, chooser):
             from concurrent.futures import CancelledError
             # besides ordinary exceptions: falsy ones, and types the future / iteration machinery gives a meaning of its own
             cls = FXE if e % 3 == 0 else CancelledError if e % 7 == 1 else StopIteration if e % 7 == 2 else XE
+            # a delegate nobody maps errors of may also fail with a BaseException that is not an Exception (what a pool
+            # stores for a callable that called sys.exit()); user functions never raise one (nothing catches those)
+            if e >= 200 and e % 7 == 4 and not any(f["d"] == e - 200 and f["hasefn"] for f in p["futs"]):
+                cls = BXE
             obs["excs"][e] = cls("e%d" % e)
         return obs["excs"][e]
 
